@@ -95,82 +95,114 @@ let loc_s (tm : tmap) (k : n) (locs : (n * n) list) =
     if decl_count tm k >= 2 then fname k ^ "@*"
     else fname k ^ "@" ^ string_of_int (int_of_n f) ^ ":" ^ string_of_int (int_of_n l)
 
-let () = register "c15.members" (fun line ->
+type case = { q : string; f0 : n; l0i : int; t : ty; univ : n list; tm : tmap }
+
+let parse_case (line : string) : case =
   match split_ws line with
   | [q; f0s; l0s; ts; us; ds] ->
-    (try
-      let f0 = n_of_int (int_of_string f0s) and l0 = n_of_int (int_of_string l0s) in
-      let ld = n_of_int (int_of_string l0s + 3) in
-      let t = parse_type ts in
-      let univ = List.map (fun x -> n_of_int (int_of_string x)) (split ',' us) in
-      let tm = List.mapi parse_def (split ';' ds) in
-      let has c = String.contains q c in
-      let sv = ((t, f0), l0) and sd = ((t, f0), ld) in
-      (* line of the first loop probe, as laid out by the Go leg: probes start two lines below the last used line
-         of the query file, one line each, in the order M I K D... P; a loop variable reads its type "one line
-         above the for statement" *)
-      let max_line = List.fold_left (fun a d -> if d.d_file = f0 then max a (int_of_n d.d_line) else a)
-                       (int_of_string l0s + 4) tm in
-      let first_probe = max_line + 2 in
-      let cnt c k = if String.contains q c then k else 0 in
-      let pline = first_probe + cnt 'M' 1 + cnt 'I' 1 + cnt 'K' 1 + cnt 'D' (List.length univ) in
-      let sp1 = ((t, f0), n_of_int (pline - 1)) and sp2 = ((t, f0), n_of_int pline) in
-      (* ---- model ---- *)
-      let model =
-        try
-          let parts = ref [] in
-          let add k v = parts := (k ^ "=" ^ v) :: !parts in
-          if has 'M' then add "M" (labels (ok_or_crash (complete_at tm sv [])));
-          if has 'I' then add "I" (labels (ok_or_crash (complete_at tm sv [None])));
-          if has 'K' then add "K" (labels (ok_or_crash (complete_at tm sv [Some zqk])));
-          if has 'D' then
-            add "D" (match univ with [] -> "-" | _ ->
-              String.concat "," (List.map (fun k ->
-                match ok_or_crash (define_at tm sd [] k) with
-                | Some loc -> loc_s tm k [loc]
-                | None -> loc_s tm k []) univ));
-          if has 'P' then begin
-            let mem_of r = match ok_or_crash r with
-              | Some s -> labels (ok_or_crash (complete_at tm s []))
-              | None -> "-" in
-            add "PK" (mem_of (for_pairs_key tm sp1));
-            add "PV" (mem_of (for_value tm sp1));
-            add "IV" (mem_of (for_value tm sp2))
-          end;
-          String.concat " " (List.rev !parts)
-        with Crash -> "CRASH stack-overflow" | Mfault m -> "MODEL-FAULT " ^ m in
-      (* ---- spec ---- *)
-      let spec =
-        try
-          let mem_t ty = match members_exec tm ty with Some l -> labels l | None -> raise (Mfault "spec-fuel") in
-          let mem_o = function Some ty -> mem_t ty | None -> "-" in
-          let parts = ref [] in
-          let add k v = parts := (k ^ "=" ^ v) :: !parts in
-          if has 'M' then add "M" (mem_t t);
-          if has 'I' then add "I" (mem_o (index_exec tm t f0));
-          if has 'K' then add "K" (mem_o (index_exec tm t f0));
-          if has 'D' then
-            add "D" (match univ with [] -> "-" | _ ->
-              String.concat "," (List.map (fun k ->
-                match define_exec tm t k with Some locs -> loc_s tm k locs | None -> raise (Mfault "spec-fuel")) univ));
-          if has 'P' then begin
-            add "PK" (mem_o (pairs_key_exec tm t f0));
-            add "PV" (mem_o (index_exec tm t f0));
-            add "IV" (mem_o (index_exec tm t f0))
-          end;
-          String.concat " " (List.rev !parts)
-        with Mfault m -> "SPEC-FAULT " ^ m in
-      (* ---- classes ---- *)
-      let cls = ref [] in
-      let needs_elem = has 'I' || has 'K' || has 'D' || has 'P' in
-      if needs_elem && (cyclic_alias leaf_arr tm t f0 || cyclic_alias leaf_val tm t f0
-                        || (has 'P' && cyclic_alias leaf_key tm t f0)) then cls := "cyclic_alias" :: !cls;
-      let sf ty = shadow_free tm ty f0 in
-      let elem_tys = (if needs_elem then (match index_exec tm t f0 with Some e -> [e] | None -> []) else [])
-                     @ (if has 'P' then (match pairs_key_exec tm t f0 with Some e -> [e] | None -> []) else []) in
-      if not (List.for_all sf (t :: elem_tys)) then cls := "shadowed_split" :: !cls;
-      model ^ "\t" ^ spec ^ "\t" ^ (match !cls with [] -> "-" | l -> String.concat "," l)
-    with Bad m -> "BAD-CASE " ^ m | Failure m -> "BAD-CASE " ^ m)
-  | _ -> "BAD-CASE fields")
+    { q; f0 = n_of_int (int_of_string f0s); l0i = int_of_string l0s; t = parse_type ts;
+      univ = List.map (fun x -> n_of_int (int_of_string x)) (split ',' us);
+      tm = List.mapi parse_def (split ';' ds) }
+  | _ -> raise (Bad "fields")
+
+(* what the faithful model predicts for the whole case *)
+let model_obs (c : case) : string =
+  let { q; f0; l0i; t; univ; tm } = c in
+  let has ch = String.contains q ch in
+  let sv = ((t, f0), n_of_int l0i) and sd = ((t, f0), n_of_int (l0i + 3)) in
+  (* line of the first loop probe, as laid out by the Go leg: probes start two lines below the last used line
+     of the query file, one line each, in the order M I K D... P; a loop variable reads its type "one line
+     above the for statement" *)
+  let max_line = List.fold_left (fun a d -> if d.d_file = f0 then max a (int_of_n d.d_line) else a) (l0i + 4) tm in
+  let first_probe = max_line + 2 in
+  let cnt ch k = if has ch then k else 0 in
+  let pline = first_probe + cnt 'M' 1 + cnt 'I' 1 + cnt 'K' 1 + cnt 'D' (List.length univ) in
+  let sp1 = ((t, f0), n_of_int (pline - 1)) and sp2 = ((t, f0), n_of_int pline) in
+  try
+    let parts = ref [] in
+    let add k v = parts := (k ^ "=" ^ v) :: !parts in
+    if has 'M' then add "M" (labels (ok_or_crash (complete_at tm sv [])));
+    if has 'I' then add "I" (labels (ok_or_crash (complete_at tm sv [None])));
+    if has 'K' then add "K" (labels (ok_or_crash (complete_at tm sv [Some zqk])));
+    if has 'D' then
+      add "D" (match univ with [] -> "-" | _ ->
+        String.concat "," (List.map (fun k ->
+          match ok_or_crash (define_at tm sd [] k) with
+          | Some loc -> loc_s tm k [loc]
+          | None -> loc_s tm k []) univ));
+    if has 'P' then begin
+      let mem_of r = match ok_or_crash r with
+        | Some s -> labels (ok_or_crash (complete_at tm s []))
+        | None -> "-" in
+      add "PK" (mem_of (for_pairs_key tm sp1));
+      add "PV" (mem_of (for_value tm sp1));
+      add "IV" (mem_of (for_value tm sp2))
+    end;
+    String.concat " " (List.rev !parts)
+  with Crash -> "CRASH stack-overflow" | Mfault m -> "MODEL-FAULT " ^ m
+
+(* what the property demands *)
+let spec_obs (c : case) : string =
+  let { q; f0; t; univ; tm; _ } = c in
+  let has ch = String.contains q ch in
+  try
+    let mem_t ty = match members_exec tm ty with Some l -> labels l | None -> raise (Mfault "spec-fuel") in
+    let mem_o = function Some ty -> mem_t ty | None -> "-" in
+    let parts = ref [] in
+    let add k v = parts := (k ^ "=" ^ v) :: !parts in
+    if has 'M' then add "M" (mem_t t);
+    if has 'I' then add "I" (mem_o (index_exec tm t f0));
+    if has 'K' then add "K" (mem_o (index_exec tm t f0));
+    if has 'D' then
+      add "D" (match univ with [] -> "-" | _ ->
+        String.concat "," (List.map (fun k ->
+          match define_exec tm t k with Some locs -> loc_s tm k locs | None -> raise (Mfault "spec-fuel")) univ));
+    if has 'P' then begin
+      add "PK" (mem_o (pairs_key_exec tm t f0));
+      add "PV" (mem_o (index_exec tm t f0));
+      add "IV" (mem_o (index_exec tm t f0))
+    end;
+    String.concat " " (List.rev !parts)
+  with Mfault m -> "SPEC-FAULT " ^ m
+
+(* classes of the known findings (negated guards of the theorems) true of the case *)
+let classes_of (c : case) : string =
+  let { q; f0; t; tm; _ } = c in
+  let has ch = String.contains q ch in
+  let cls = ref [] in
+  let needs_elem = has 'I' || has 'K' || has 'D' || has 'P' in
+  if needs_elem && (cyclic_alias leaf_arr tm t f0 || cyclic_alias leaf_val tm t f0
+                    || (has 'P' && cyclic_alias leaf_key tm t f0)) then cls := "cyclic_alias" :: !cls;
+  let sf ty = shadow_free tm ty f0 in
+  let elem_tys = (if needs_elem then (match index_exec tm t f0 with Some e -> [e] | None -> []) else [])
+                 @ (if has 'P' then (match pairs_key_exec tm t f0 with Some e -> [e] | None -> []) else []) in
+  if not (List.for_all sf (t :: elem_tys)) then cls := "shadowed_split" :: !cls;
+  match !cls with [] -> "-" | l -> String.concat "," l
+
+let () = register "c15.members" (fun line ->
+  try
+    let c = parse_case line in
+    model_obs c ^ "\t" ^ spec_obs c ^ "\t" ^ classes_of c
+  with Bad m -> "BAD-CASE " ^ m | Failure m -> "BAD-CASE " ^ m)
+
+(* Generator helper (not a correspondence leg): "1" when the model's answer does not depend on the order in which
+   the FILES contribute to the workspace map (a Go map iteration order in rebuidCreateTypeMap), else "0".
+   The deciding leg only runs cases with "1". *)
+let rec perms = function
+  | [] -> [[]]
+  | l -> List.concat_map (fun x -> List.map (fun p -> x :: p) (perms (List.filter (fun y -> y <> x) l))) l
+
+let () = register "c15.stable" (fun line ->
+  try
+    let c = parse_case line in
+    let files = List.sort_uniq compare (List.map (fun d -> int_of_n d.d_file) c.tm) in
+    let base = model_obs c in
+    let ok = List.for_all (fun p ->
+        let rank f = let rec go i = function [] -> 0 | x :: r -> if x = f then i else go (i + 1) r in go 0 p in
+        let tm' = List.stable_sort (fun a b -> compare (rank (int_of_n a.d_file)) (rank (int_of_n b.d_file))) c.tm in
+        let tm' = List.mapi (fun i d -> { d with d_id = n_of_int i }) tm' in
+        model_obs { c with tm = tm' } = base) (perms files) in
+    (if ok then "1" else "0") ^ "\t-\t-"
+  with Bad m -> "BAD-CASE " ^ m | Failure m -> "BAD-CASE " ^ m)
 
 let () = main ()
